@@ -154,13 +154,13 @@ nanoseconds.  (`mul_f64` is `from_secs_f64(f * d.as_secs_f64())`, i.e. floating 
 durations of the UCI `go` command and these factors the harness checks this differentially.)  Panics if negative or
 beyond `Duration::MAX`. -/
 def durMulF64 (ns : Int) (f : Int × Int) : Option Int :=
-  if 0 ≤ ns * f.1 / f.2 ∧ ns * f.1 / f.2 < 18446744073709551616 * 1000000000 then some (ns * f.1 / f.2) else none
+  if 0 ≤ ns * f.1 / f.2 ∧ ns * f.1 / f.2 < 18446744073709551616000000000 then some (ns * f.1 / f.2) else none
 
 /-- `d.div(k)` / `d / k` for `k : u32`: exact floor division of the nanoseconds; panics on `k = 0` -/
 def durDiv (ns k : Int) : Option Int := if k = 0 then none else some (ns / k)
 
 /-- `d.mul(k)` / `d * k` for `k : u32`; panics beyond `Duration::MAX` -/
-def durMul (ns k : Int) : Option Int := if ns * k < 18446744073709551616 * 1000000000 then some (ns * k) else none
+def durMul (ns k : Int) : Option Int := if ns * k < 18446744073709551616000000000 then some (ns * k) else none
 
 /-- `s.len()` of a `&str`: its length in UTF-8 BYTES (not chars) -/
 def strLen (s : List Char) : Int := ((s.map Char.utf8Size).sum : Nat)
